@@ -7,7 +7,7 @@ from schedgen import par, parse_par
 ID = "C19"
 DRIVER = "node"
 MODEL_FILES = ["Model/Base.v", "Model/Parse.v", "Model/Node.v"]
-THEOREMS = ["C19_newer_never_refused", "C19_newer_reply_value", "C19_newer_apply", "C19_tombstone_reply_refuted"]
+THEOREMS = ["C19_newer_never_refused", "C19_newer_reply_value", "C19_newer_apply", "C19_tombstone_reply_refuted", "C19_sched_resolving_set_succeeds", "C19_sched_newer_set_release", "C19_sched_newer_resolving_release", "C19_sched_newer_set_answered", "C19_sched_newer_version_grows", "C19_sched_newer_version_grows_inv"]
 STRENGTH = {t: "proof-unbounded" for t in THEOREMS}
 RULE = ("exhaustive sequences (length <= 4 quick / 5 thorough) of plain and versioned writes (versions -1..3) to keys of a "
         "'newer' database and of the administrative database, with a watcher, remove and snapshot+flush mixed in; seeded random "
